@@ -10,7 +10,35 @@ META = {
 }
 
 
+def bounded(rep, tier):
+    import time
+    from vrf.core import Result, VIOLATED, BOUNDED_OK
+    from vrf.propkit import pool_map
+    from vrf.bounded import inherit_grid as G
+    t0 = time.time()
+    ns = 60 if tier == "quick" else 600
+    outs = [b for o in pool_map(G.run_case, [(s,) for s in range(ns)]) for b in o]
+    bound = "%d x 12 random chains of length 1-4: defs, named and anonymous blocks, module attributes, self/next/parent/local calls, next.body() chaining, static and dynamic <%%inherit>" % ns
+    if outs:
+        rep.add(Result("C06.inherit-grid", VIOLATED, klass="B", backend="native-model", function="mako.runtime / mako.codegen (inheritance)", bound=bound, evaluations=ns * 12,
+                       detail="expected %r, got %r" % (outs[0]["expected"][:120], outs[0]["got"][:120]), witness=outs[0], replayed=True, replay={"failures": outs[:2]}, time_s=time.time() - t0))
+    else:
+        rep.add(Result("C06.inherit-grid", BOUNDED_OK, klass="B", backend="native-model", function="mako.runtime / mako.codegen (inheritance)", bound=bound, evaluations=ns * 12,
+                       time_s=time.time() - t0, detail="every chain renders what the statement's model prescribes"))
+    t1 = time.time()
+    n, bad = G.compile_rejections()
+    if bad:
+        rep.add(Result("C06.block-rules", VIOLATED, klass="B", backend="native-oracle", function="mako.codegen:_Identifiers.visitBlockTag", bound="7 templates", evaluations=n,
+                       detail=str(bad[0])[:250], witness=bad[0], replayed=True, replay={"failures": bad}, time_s=time.time() - t1))
+    else:
+        rep.add(Result("C06.block-rules", BOUNDED_OK, klass="B", backend="native-oracle", function="mako.codegen:_Identifiers.visitBlockTag", bound="7 templates", evaluations=n,
+                       time_s=time.time() - t1, detail="duplicate block names and named blocks inside defs/calls rejected at compile time; anonymous blocks accepted"))
+
+
 def run(rep, tier):
     rep.trust(*BASE_TRUST)
     rep.assume(*BASE_ASSUME)
     run_pyvc(rep, contracts_for("C06"), native_limit=150 if tier == "quick" else 600)
+    bounded(rep, tier)
+    from vrf.propkit import link_bounded_witness
+    link_bounded_witness(rep)
